@@ -13,7 +13,7 @@ def t_tree(ctx):
     clauses.evaluate(ctx, finished)
 
 
-def child(mode='await', k=0, depth=2, raising=None, actor=True, sync_child=False, two_handlers=False, extra_reals=None):
+def child(mode='await', k=0, depth=2, raising=None, actor=True, sync_child=False, two_handlers=False, extra_reals=None, child_ff=False):
     """one bus; P's handler dispatches C (mode), optional G below C; k unrelated L events queued behind P;
     an external actor dispatches X at t_x."""
     reals = {'d1': D, 'd2': D}
@@ -27,6 +27,8 @@ def child(mode='await', k=0, depth=2, raising=None, actor=True, sync_child=False
         hp += [['disp', 'A', 'C', 'C1'], ['sleep', 'd4'], ['await', 'C1']]
     hp += [['ret', 'p']]
     hc = []
+    if child_ff:
+        hc += [['disp', 'A', 'G', 'G1']]
     if depth >= 3:
         hc += [['dispawait', 'A', 'G', 'G1']]
     if sync_child:
@@ -39,7 +41,7 @@ def child(mode='await', k=0, depth=2, raising=None, actor=True, sync_child=False
             hc += [['ret', 'c']]
     handlers = [['A', 'P', 'hP', hp], ['A', 'C', 'hC', hc, {'sync': sync_child}], ['A', 'L', 'hL', [['ret', 'l']]],
                 ['A', 'X', 'hX', [['ret', 'x']]]]
-    if depth >= 3:
+    if depth >= 3 or child_ff:
         reals['d3'] = D
         handlers.append(['A', 'G', 'hG', [['sleep', 'd3'], ['ret', 'g']]])
     if two_handlers:
@@ -381,7 +383,7 @@ M2_CH = ('ret', 'raise', 'sleep', 'two', 'two_raise_first', 'awaitG', 'ffG', 'aw
 M2_GH = ('ret', 'two')
 
 
-def matrix2(par, ph, second, ch, gh, T='1/4'):
+def matrix2(par, ph, second, ch, gh, T='1/4', timed='P1'):
     """root P with event_timeout T; its first handler follows ph; children C / grandchildren G with several handler set-ups
     (a second handler that has not started when the time-out fires, an errored first handler, ...); a later event L."""
     from fractions import Fraction
@@ -429,7 +431,9 @@ def matrix2(par, ph, second, ch, gh, T='1/4'):
     main = [['root', 'A', 'P', 'P1'], ['root', 'A', 'L', 'L1'], ['idle', 'A'], ['obs_all', 'after_idle']]
     cfg = dict(buses=['A'], order=['A'], parallel=['A'] if par else [], reals=reals, handlers=handlers, main=main, horizon=6, settle='1/2',
                actors={'w': [['await', 'P1'], ['obs', 'after_await', 'P1']]},
-               timeouts={'P1': T}, T=T, features=dict(par=par, ph=ph, second=second, ch=ch, gh=gh), m2=True)
+               timeouts={timed: T}, T=T, features=dict(par=par, ph=ph, second=second, ch=ch, gh=gh, timed=timed), m2=True)
+    # observe the child shortly after the (earliest possible) time-out instant
+    cfg['actors']['poll'] = [['poll_if', str(Fraction(T) + Fraction(1, 100)), 'C1'], ['poll_if', str(Fraction(T) + Fraction(1, 20)), 'C1']]
     used = json_dumps(handlers)
     for v in list(reals):
         if f'"{v}"' not in used:
@@ -437,8 +441,8 @@ def matrix2(par, ph, second, ch, gh, T='1/4'):
     return cfg
 
 
-def matrix2_id(par, ph, second, ch, gh, T='1/4'):
-    return f'm2/{"par" if par else "ser"}/{ph}/{second}/{ch}/{gh}'
+def matrix2_id(par, ph, second, ch, gh, T='1/4', timed='P1'):
+    return f'm2/{"par" if par else "ser"}/{ph}/{second}/{ch}/{gh}' + ('' if timed == 'P1' else f'/timed={timed}')
 
 
 def matrix2_rows(tier):
@@ -455,6 +459,10 @@ def matrix2_rows(tier):
     rows = pairwise(doms, must)
     # gh only matters with grandchildren
     rows = [r for r in rows if r[3] in ('awaitG', 'ffG') or r[4] == 'ret']
+    # the time-out on the awaited child instead of on the root (the root's handler survives and goes on awaiting)
+    for ch_ in ('sleep', 'two', 'awaitG', 'awaitG_L'):
+        for ph_ in ('await', 'await_first'):
+            rows.append((False, ph_, 'none', ch_, 'two' if ch_ == 'awaitG' else 'ret', '1/4', 'C1'))
     if tier == 'thorough':
         import itertools
         for r in itertools.product(*doms):
